@@ -58,6 +58,7 @@ package utils
 
 //@ func CleanPath(p) r
 //@   props C07
+//@   replay-go al := []byte("/.a"); var rec func(x []byte, d int); rec = func(x []byte, d int) { r := CleanPath(string(x)); bad := len(r) == 0 || r[0] != '/'; for _, seg := range strings.Split(r, "/") { if seg == ".." || seg == "." { bad = true } }; if strings.Contains(r, "//") { bad = true }; if bad { fmt.Printf("VCGO-VIOLATED CleanPath(%q) = %q: not rooted, or a '.', '..' or empty element is left\n", x, r); panic("stop") }; if d == 0 { return }; for _, c := range al { rec(append(append([]byte{}, x...), c), d-1) } }; rec(nil, 7)
 //@   requires len(p) < 281474976710656
 //@   allocates
 //@   loop 0:
